@@ -88,7 +88,9 @@ func cmdDump(args []string) int {
 		}
 	}
 	in := r.interp(rwConfig{root: fn, blockOracles: blockOr})
-	in.Fields = fields
+	for k, v := range fields {
+		in.Fields[k] = v
+	}
 	func() {
 		defer func() {
 			if e := recover(); e != nil {
